@@ -95,8 +95,13 @@ def run(ctx):
 def check_formatted(ctx, w):
     f = w.model.func('dwarf/structs.py', 'DWARFStructs._create_lineprog_header')
     src = U(f.node)
-    ok = 'fields = tuple((Rename(f.content_type, self.structs.Dwarf_dw_form[f.form]) for f in context[self.format_field]))' in src and \
-        "parser = Struct('formatted_entry', *fields)" in src and 'return parser._parse(stream, context)' in src
+    # one field per (content type, form) pair of the entry format, in format order: a comprehension (of any kind) over the
+    # format field whose element renames the form parser to the content type; the fields are splatted into one Struct whose
+    # parse is the result
+    comps = [c for c in ast.walk(f.node) if isinstance(c, (ast.GeneratorExp, ast.ListComp)) and len(c.generators) == 1 and not c.generators[0].ifs]
+    good = [c for c in comps if U(c.generators[0].iter) == 'context[self.format_field]' and isinstance(c.generators[0].target, ast.Name) and
+            U(c.elt) == 'Rename(%s.content_type, self.structs.Dwarf_dw_form[%s.form])' % (c.generators[0].target.id, c.generators[0].target.id)]
+    ok = len(good) == 1 and "Struct('formatted_entry', *fields)" in src and '._parse(stream, context)' in src
     ctx.ob('L-CONF', f.construct, 'v5 entries parsed with the form parser of every format pair, in format order', ok,
            msg='a formatted directory/file entry must consist of one value per (content type, form) pair of the entry format')
     for fld, fmt in (('directories', 'directory_entry_format'), ('file_names', 'file_name_entry_format')):
